@@ -110,9 +110,13 @@ def r2_marker_length(ctx, rep):
             doc_if = s
     if doc_if is None:
         raise AnalysisError("dispatch loop: doc-line branch not found")
-    t = ast.unparse(doc_if)
-    const_slices = re.findall(r"line\[(?:0:)?\d+:?\d*\]", t)
-    uses_len = "len(" in t or ".startswith(" in t or "removeprefix" in t
+    def const_bound(sl):
+        return isinstance(sl, ast.Slice) and any(isinstance(b, ast.Constant) and isinstance(b.value, int) and b.value != 0
+                                                 for b in (sl.lower, sl.upper) if b is not None)
+    const_slices = [ast.unparse(n) for n in ast.walk(doc_if) if isinstance(n, ast.Subscript) and isinstance(n.value, ast.Name)
+                    and n.value.id == cs.line_var and const_bound(n.slice)]
+    uses_len = any(isinstance(n, ast.Call) and (call_name(n) == "len" or (isinstance(n.func, ast.Attribute) and n.func.attr in
+                                                                          ("startswith", "removeprefix"))) for n in ast.walk(doc_if))
     ok = uses_len and not const_slices
     rep.ob("dispatch loop: doc-line test/strip uses the marker's length", ok,
            "offsets are derived from the configured marker" if ok else
